@@ -73,6 +73,8 @@ type vlBlock struct {
 	No        uint64 `json:"no"`        // exec mode: block number (0 = previous+1)
 	Validator bool   `json:"validator"` // exec mode: abort at the first failing tx (validator rule)
 	Txs       []vlTx `json:"txs"`
+	Deliver   string `json:"deliver"` // chain mode: "" = from the network (no block state); "own" = with the block state the block
+	// was produced from (block factory / raft commit path); "foreign" = with a block state that disagrees with the header
 	CidMut    string `json:"cidmut"` // chain mode: the block header (and its txs) name a chain id differing in this field
 }
 
@@ -771,7 +773,24 @@ func (e *vlEnv) runCase(w *bufio.Writer) {
 			// watchdog: a validator that never answers (e.g. verifier goroutines blocked on stale results) is a result
 			var err error
 			doneCh := make(chan error, 1)
-			go func() { doneCh <- cs.addBlock(nb, nil, testPeer) }()
+			var used *state.BlockState
+			if blk.Deliver == "own" || blk.Deliver == "foreign" {
+				// a block state as a block factory hands it over: executed and Update()d, not committed
+				used, _, _ = run(included, false)
+				SendBlockReward(used, coinbase)
+				if blk.Deliver == "foreign" {
+					st, _ := state.GetAccountState(e.addr(12), used.StateDB)
+					st.AddBalance(big.NewInt(1000000))
+					st.PutState()
+				}
+				if err := used.Update(); err != nil {
+					panic(err)
+				}
+				if scs0, e0 := statedb.GetSystemAccountState(cs.sdb.OpenNewStateDB(cs.sdb.GetRoot())); e0 == nil {
+					system.InitVotingPowerRank(scs0)
+				}
+			}
+			go func() { doneCh <- cs.addBlock(nb, used, testPeer) }()
 			select {
 			case err = <-doneCh:
 			case <-time.After(30 * time.Second):
